@@ -337,11 +337,29 @@ def small_histories(universe, rng, per_case):
     return out
 
 
-def history_job(i, chain, ask_first=True):
+def refused_block(i, case, qs, rng):
+    """A definition the loader must REFUSE (Names.tla: Refuse, a stuttering step - the database is what it was): a substance
+    whose last property does not evaluate.  Its property, input and output names are names of the query alphabet, by
+    preference names that denote something in the database, so that whatever the refused definition leaves behind in the
+    context (load-time temporaries are consulted before the registry) shows as a changed denotation."""
+    live = [s_of(h["name"]) for h in case["hits"] if h["adm"]]
+    pool = (live if len(live) >= 3 else live + qs[:12])
+    names = rng.sample(sorted(set(pool)), 3) if len(set(pool)) >= 3 else qs[:3]
+    v = rng.choice([1, 1, 2, 3])
+    w = rng.choice([1, 1, 2, 5])
+    if v != 1 and w != 1:
+        w = 1
+    return "zq_r%d {\n %s %s %d / %s %d\n zq_bad const zq_b%d 1 zq_no_such_unit\n}\n" % (i, names[0], names[1], w, names[2], v, i)
+
+
+def history_job(i, chain, ask_first=True, refused=None):
     stages = []
     prev = frozenset()
     for k, st in enumerate(chain):
-        stages.append({"defs": render_items(sorted(st - prev, key=repr)), "ask": ask_first or k == len(chain) - 1})
+        text = render_items(sorted(st - prev, key=repr))
+        if refused is not None and refused[0] == k:
+            text = refused[1] + text if refused[2] else text + refused[1]
+        stages.append({"defs": text, "ask": ask_first or k == len(chain) - 1})
         prev = st
     return {"id": i, "base": "empty", "stages": stages}
 
@@ -420,7 +438,12 @@ def leg_history(run, universe, rng, shards, per_case, limit=None):
     for lo in range(0, len(chains), BATCH):
         bchains = chains[lo:lo + BATCH]
         # every third history asks nothing before the last load (load, load, ask: what an earlier LOAD left behind)
-        jobs = [history_job(lo + i, ch, ask_first=((lo + i) % 3 != 2)) for i, ch in enumerate(bchains)]
+        # every second history carries, in one of its loads, a definition the loader refuses (the state of MC_Names stays)
+        jobs = [history_job(lo + i, ch, ask_first=((lo + i) % 3 != 2),
+                            refused=((rng.randrange(len(ch)), refused_block(lo + i, universe[ch[-1]], qs, rng), rng.random() < 0.5)
+                                     if (lo + i) % 2 == 0 else None))
+                for i, ch in enumerate(bchains)]
+        tot["refused"] = tot.get("refused", 0) + sum(1 for j in jobs if any("zq_bad" in st["defs"] for st in j["stages"]))
         tc = time.time()
         res = regkit.run_sharded(lambda i, o: [vlib.rv("rv-names"), "history", "--in", i, "--out", o], jobs, shards, "c07h",
                                  header={"names": [cps_of(q) for q in qs]})
@@ -436,6 +459,7 @@ def leg_history(run, universe, rng, shards, per_case, limit=None):
         len(chains), nstages, len(qs), t1 - t0, tot["code"], time.time() - t1 - tot["code"], notloaded, nbad))
     return first[0], first[1], first[2], {"histories": len(chains), "histories_generated": nall, "stages_judged": nstages,
                                           "not_loaded_as_intended": notloaded,
+                                          "histories_with_a_refused_definition": tot.get("refused", 0),
                                           "three_or_more_loads": sum(1 for c in chains if len(c) >= 3), "mismatches": nbad}
 
 
